@@ -1,0 +1,287 @@
+//go:build verif
+
+package app
+
+import (
+	"context"
+	"errors"
+	"io"
+	"log/slog"
+	"net/http"
+	"os"
+	"sync"
+	"sync/atomic"
+	"time"
+
+	"github.com/nuetzliches/hookaido/internal/admin"
+	"github.com/nuetzliches/hookaido/internal/config"
+	"github.com/nuetzliches/hookaido/internal/dispatcher"
+	"github.com/nuetzliches/hookaido/internal/ingress"
+	"github.com/nuetzliches/hookaido/internal/pullapi"
+	"github.com/nuetzliches/hookaido/internal/queue"
+	"github.com/nuetzliches/hookaido/internal/verifhook"
+	"github.com/nuetzliches/hookaido/internal/workerapi"
+)
+
+// VerifOptions configures VerifBoot (verification builds only).
+type VerifOptions struct {
+	ConfigPath string
+	DBPath     string
+	// Now, when set, replaces the clock of the runtime state (rate limiters)
+	// and of every HMAC authenticator built by loadAuth, on boot and on every
+	// reload.
+	Now func() time.Time
+	// Store, when set, is used instead of the store the configuration selects.
+	Store queue.Store
+	// Deliverer, when set, starts the push dispatcher with it (instead of the
+	// HTTP deliverer) if the configuration has deliver routes.
+	Deliverer dispatcher.Deliverer
+	// HTTPDispatcher starts the push dispatcher with the production HTTP
+	// deliverer (ignored when Deliverer is set).
+	HTTPDispatcher bool
+	Logger         *slog.Logger
+}
+
+// VerifInstance is a running in-process hookaido wired exactly as run() wires
+// it: same runtimeState, loadAuth, startServers, reloadConfig and management
+// mutation closures.
+type VerifInstance struct {
+	opts    VerifOptions
+	state   *runtimeState
+	logger  *slog.Logger
+	cancel  context.CancelFunc
+	servers []shutdownServer
+	push    *dispatcher.PushDispatcher
+	closer  func() error
+
+	reloadMu sync.Mutex
+	running  config.Compiled
+
+	Store    queue.Store
+	Ingress  *ingress.Server
+	Pull     *pullapi.Server
+	Worker   *workerapi.Server
+	Admin    *admin.Server
+	Handlers map[string]http.Handler // by server entry name: ingress, pull_api, admin_api, pull+admin
+	Addrs    map[string]string       // listener addresses by entry name, plus "grpc"
+}
+
+var (
+	verifBootMu  sync.Mutex
+	verifLoading atomic.Pointer[VerifInstance]
+	verifSubOnce sync.Once
+)
+
+func verifSubscribe() {
+	verifSubOnce.Do(func() {
+		verifhook.Subscribe("app.hmacauth", func(v any) {
+			inst := verifLoading.Load()
+			if inst == nil || inst.opts.Now == nil {
+				return
+			}
+			if a, ok := v.(*ingress.HMACAuth); ok && a != nil {
+				a.Now = inst.opts.Now
+			}
+		})
+	})
+}
+
+// VerifBoot performs the start-up sequence of run() without flag parsing,
+// logging setup and signal handling.
+func VerifBoot(opts VerifOptions) (*VerifInstance, error) {
+	verifSubscribe()
+	logger := opts.Logger
+	if logger == nil {
+		logger = slog.New(slog.NewTextHandler(io.Discard, nil))
+	}
+	data, err := os.ReadFile(opts.ConfigPath)
+	if err != nil {
+		return nil, err
+	}
+	cfg, err := config.Parse(data)
+	if err != nil {
+		return nil, err
+	}
+	compiled, res := config.Compile(cfg)
+	if !res.OK {
+		return nil, errors.New(config.FormatValidationText(res))
+	}
+
+	verifBootMu.Lock()
+	defer verifBootMu.Unlock()
+
+	inst := &VerifInstance{opts: opts, logger: logger, running: compiled, Handlers: map[string]http.Handler{}, Addrs: map[string]string{}}
+	state := newRuntimeState(compiled)
+	if opts.Now != nil {
+		state.mu.Lock()
+		state.now = opts.Now
+		state.configureIngressRateLimits(compiled)
+		state.mu.Unlock()
+	}
+	inst.state = state
+	verifLoading.Store(inst)
+	err = state.loadAuth(compiled)
+	verifLoading.Store(nil)
+	if err != nil {
+		return nil, err
+	}
+
+	store := opts.Store
+	closer := func() error { return nil }
+	if store == nil {
+		var cl func() error
+		store, _, cl, err = newQueueStore(compiled, opts.DBPath, "")
+		if err != nil {
+			return nil, err
+		}
+		closer = cl
+	}
+	inst.Store = store
+	inst.closer = closer
+
+	_, cancel := context.WithCancel(context.Background())
+	inst.cancel = cancel
+	appMetrics := newRuntimeMetrics()
+	appMetrics.queueStore = store
+
+	names := []string{"ingress", "pull_api", "admin_api", "pull+admin"}
+	servers, err := startServers(store, compiled, state, logger, nil, appMetrics, inst.UpsertManagedEndpoint, inst.DeleteManagedEndpoint, cancel)
+	if err != nil {
+		_ = closer()
+		return nil, err
+	}
+	inst.servers = servers
+	for _, n := range names {
+		if v, ok := verifhook.Lookup("app.server." + n); ok {
+			if h, ok := v.(http.Handler); ok {
+				inst.Handlers[n] = h
+			}
+			verifhook.Publish("app.server."+n, nil)
+		}
+		if v, ok := verifhook.Lookup("app.listen." + n); ok {
+			if s, ok := v.(string); ok && s != "" {
+				inst.Addrs[n] = s
+			}
+			verifhook.Publish("app.listen."+n, "")
+		}
+	}
+	if v, ok := verifhook.Lookup("app.listen.grpc"); ok {
+		if s, ok := v.(string); ok && s != "" {
+			inst.Addrs["grpc"] = s
+		}
+		verifhook.Publish("app.listen.grpc", "")
+	}
+	if v, ok := verifhook.Lookup("app.ingress"); ok {
+		inst.Ingress, _ = v.(*ingress.Server)
+	}
+	if v, ok := verifhook.Lookup("app.pull"); ok {
+		inst.Pull, _ = v.(*pullapi.Server)
+	}
+	if v, ok := verifhook.Lookup("app.worker"); ok {
+		inst.Worker, _ = v.(*workerapi.Server)
+	}
+	if v, ok := verifhook.Lookup("app.admin"); ok {
+		inst.Admin, _ = v.(*admin.Server)
+	}
+
+	if compiled.HasDeliverRoutes && (opts.Deliverer != nil || opts.HTTPDispatcher) {
+		deliverer := opts.Deliverer
+		if deliverer == nil {
+			policy := dispatcher.EgressPolicy{
+				HTTPSOnly:           compiled.Defaults.EgressPolicy.HTTPSOnly,
+				Redirects:           compiled.Defaults.EgressPolicy.Redirects,
+				DNSRebindProtection: compiled.Defaults.EgressPolicy.DNSRebindProtection,
+				Allow:               mapEgressRules(compiled.Defaults.EgressPolicy.Allow),
+				Deny:                mapEgressRules(compiled.Defaults.EgressPolicy.Deny),
+			}
+			deliverer = dispatcher.NewHTTPDeliverer(tracingHTTPClient(false), policy)
+		}
+		push := &dispatcher.PushDispatcher{
+			Store:     store,
+			Deliverer: deliverer,
+			Routes:    buildDispatchRoutes(compiled),
+			Logger:    logger,
+		}
+		push.Start()
+		inst.push = push
+	}
+	return inst, nil
+}
+
+// Running returns the configuration currently considered running.
+func (v *VerifInstance) Running() config.Compiled {
+	v.reloadMu.Lock()
+	defer v.reloadMu.Unlock()
+	return v.running
+}
+
+// Reload is run()'s reloadNow (SIGHUP / --watch path).
+func (v *VerifInstance) Reload(trigger string) bool {
+	v.reloadMu.Lock()
+	defer v.reloadMu.Unlock()
+	verifLoading.Store(v)
+	updated, ok := reloadConfig(v.opts.ConfigPath, v.running, v.state, v.logger, trigger)
+	verifLoading.Store(nil)
+	if ok {
+		v.running = updated
+	}
+	return ok
+}
+
+// UpsertManagedEndpoint is run()'s management upsert closure.
+func (v *VerifInstance) UpsertManagedEndpoint(req admin.ManagementEndpointUpsertRequest) (admin.ManagementEndpointMutationResult, error) {
+	v.reloadMu.Lock()
+	defer v.reloadMu.Unlock()
+	verifLoading.Store(v)
+	defer verifLoading.Store(nil)
+	result, updated, err := mutateManagedEndpointConfig(v.opts.ConfigPath, v.running, v.state, v.logger, func(cfg *config.Config, compiled config.Compiled) (admin.ManagementEndpointMutationResult, error) {
+		return applyManagedEndpointUpsert(cfg, compiled, req, v.Store)
+	}, "admin_management_upsert")
+	if err != nil {
+		return admin.ManagementEndpointMutationResult{}, err
+	}
+	v.running = updated
+	return result, nil
+}
+
+// DeleteManagedEndpoint is run()'s management delete closure.
+func (v *VerifInstance) DeleteManagedEndpoint(req admin.ManagementEndpointDeleteRequest) (admin.ManagementEndpointMutationResult, error) {
+	v.reloadMu.Lock()
+	defer v.reloadMu.Unlock()
+	verifLoading.Store(v)
+	defer verifLoading.Store(nil)
+	result, updated, err := mutateManagedEndpointConfig(v.opts.ConfigPath, v.running, v.state, v.logger, func(cfg *config.Config, compiled config.Compiled) (admin.ManagementEndpointMutationResult, error) {
+		return applyManagedEndpointDelete(cfg, compiled, req, v.Store)
+	}, "admin_management_delete")
+	if err != nil {
+		return admin.ManagementEndpointMutationResult{}, err
+	}
+	v.running = updated
+	return result, nil
+}
+
+// Drain drains the push dispatcher (if started).
+func (v *VerifInstance) Drain(timeout time.Duration) bool {
+	if v.push == nil {
+		return true
+	}
+	return v.push.Drain(timeout)
+}
+
+// Stop shuts the listeners down and closes the store it opened.
+func (v *VerifInstance) Stop() {
+	if v.push != nil {
+		v.push.Drain(2 * time.Second)
+	}
+	ctx, cancel := context.WithTimeout(context.Background(), 2*time.Second)
+	defer cancel()
+	for _, s := range v.servers {
+		_ = s.Shutdown(ctx)
+	}
+	if v.cancel != nil {
+		v.cancel()
+	}
+	if v.closer != nil {
+		_ = v.closer()
+	}
+}
